@@ -173,8 +173,13 @@ def random_case(rnd):
                 faults.append({"k": "frag", "s": rnd.randint(hdr, alen - 1), "d1": d1, "d2": d2})
         else:
             faults.append({"k": "ok"})
+    toggles = []
+    if level == "inverter" and rnd.random() < 0.4:
+        # the application switches keep-alive while requests are queued / in flight (Inverter.set_keep_alive)
+        toggles = [{"at": rnd.choice(offs + [DEFAULT_LATENCY / 2, tau / 8, 3 * tau / 4]), "on": rnd.random() < 0.4}
+                   for _ in range(rnd.randint(1, 2))]
     return {"transport": tr, "keep_alive": rnd.random() < 0.5, "timeout": tau, "retries": r, "count": count,
-            "level": level, "callers": callers, "faults": faults,
+            "level": level, "callers": callers, "faults": faults, "toggles": toggles,
             # the object has been used from another event loop before (a previous asyncio.run)
             "prior_loop": rnd.choice([False] * 11 + [True, "contended", "contended"])}
 
@@ -183,6 +188,8 @@ def simplify(case):
     out = []
     if case.get("prior_loop"):
         out.append(dict(case, prior_loop=False))
+    if case.get("toggles"):
+        out.append(dict(case, toggles=case["toggles"][1:]))
     for ci, c in enumerate(case["callers"]):
         if c["start"]:
             cc = dict(case)
@@ -242,10 +249,19 @@ def simulate(case):
             rec["seq0"] = None
             results.append(rec)
 
+    async def toggler(spec):
+        await asyncio.sleep(spec["at"])
+        inv.set_keep_alive(spec["on"])
+
     async def main():
         tasks = [asyncio.ensure_future(caller(ci, spec)) for ci, spec in enumerate(case["callers"])]
         for i, t in enumerate(tasks):
             t.set_name(f"caller{i}")
+        if case["level"] == "inverter":
+            for j, spec in enumerate(case.get("toggles") or ()):
+                t = asyncio.ensure_future(toggler(spec))
+                t.set_name(f"toggler{j}")
+                tasks.append(t)
         await asyncio.gather(*tasks)
 
     if case.get("prior_loop"):
@@ -396,6 +412,7 @@ def run_case(case):
     nontrivial = overlap_in_time > 0 or any(t["fault"] != "ok" for t in txs)
     probes = {"retry_requeued_behind_other_caller": requeued, "callers_overlapping": overlap_in_time,
               "requests": len(results), "fragments_composed": sum(1 for i in complete if txs[i]["f"]["k"] == "frag"),
+              "keep_alive_switched_mid_run": len(case.get("toggles") or ()) if case["level"] == "inverter" else 0,
               "caller_cancelled_queued": 1 if case.get("cancel_mode") == "queued" else 0,
               "caller_cancelled_inflight": 1 if case.get("cancel_mode") == "inflight" else 0}
     return C.package(world, case, violations, sig, nontrivial, probes)
